@@ -256,7 +256,9 @@ def testsuite_histories(ctx):
     # as in the pinned baseline: WITHOUT the pysat stand-in (the SAT-dependent tests fail on import and are not part of it;
     # with the slow stand-in they would run for hours on the bundled benchmark circuits)
     harness = os.path.dirname(os.path.dirname(os.path.dirname(os.path.abspath(__file__))))
-    env = dict(os.environ, CGV_TESTTRACE_OUT=out, PYTHONPATH=os.pathsep.join([harness, repo]))
+    tmpd = os.path.join(ctx.scratch, "pytest_tmp_%d" % ctx.hashseed)      # the tests' own temporary files go away with the scratch dir
+    os.makedirs(tmpd, exist_ok=True)
+    env = dict(os.environ, CGV_TESTTRACE_OUT=out, PYTHONPATH=os.pathsep.join([harness, repo]), TMPDIR=tmpd)
     p = subprocess.run([sys.executable, "-m", "pytest", "-q", "-p", "no:cacheprovider", "-p", "cgv.testtrace", "--timeout=900",
                         "--continue-on-collection-errors", "tests"], cwd=repo, env=env, capture_output=True, text=True, timeout=600)
     ctx.count("testsuite_pytest_exit_%d" % p.returncode)
